@@ -967,6 +967,18 @@ def gen_run_session(rng):
 
 
 CORPUS = [
+    # round 8 (seed C19-m15: parsed statements cached by text, `.run` writes its default CLOSE date into the cached statement):
+    # a named query run with `.run`, then the IDENTICAL text typed (and the other way round), same text under several names
+    {'ledger': 'A', 'format': 'text', 'numberify': False,
+     'lines': ['.run fromq', 'SELECT date, account, position FROM year = 2022', '.run fromq', '.run food',
+               "SELECT date, account, position WHERE account ~ 'Food'", '.run none', 'SELECT date, account FROM year = 2022',
+               '.run *', 'SELECT date, account, position FROM year = 2022', 'BALANCES FROM year = 2022', '.run bal',
+               'BALANCES FROM year = 2022']},
+    {'ledger': 'A', 'format': 'csv', 'numberify': False,
+     'lines': ['SELECT date, account, position FROM year = 2022', '.run fromq', 'SELECT date, account, position FROM year = 2022',
+               "JOURNAL 'Checking' FROM year = 2022", '.run jrn', "JOURNAL 'Checking' FROM year = 2022",
+               'SELECT date, account, position FROM OPEN ON 2022-01-01', '.run openonly',
+               'SELECT date, account, position FROM OPEN ON 2022-01-01']},
     {'ledger': 'A', 'format': 'text', 'numberify': False, 'lines': ['.set getstr 1']},
     {'ledger': 'A', 'format': 'text', 'numberify': False, 'lines': ['.set getstr']},
     {'ledger': 'A', 'format': 'text', 'numberify': False, 'lines': ['.set __doc__ zz', '.set']},
